@@ -113,10 +113,12 @@ def _get_action(ck: Check, repo: Repo, fn: Fn, cname: str) -> Optional[str]:
     rets = [n for n in cfg.live_nodes() if n.kind == "stmt" and isinstance(n.ast, ast.Return)]
     # roles, not spellings: g is the local that holds torch.zeros((action_dim, numel)); v is the local the update statement reads
     g_name = _local_bound_to(cfg, lambda e: any(call_name(c) == "torch.zeros" for c in ast.walk(e) if isinstance(c, ast.Call)))
-    vdef = _feature_defs(cfg, u, g_name, fn.params)
+    # ... under any of its names: a local that only ever holds that tensor (`feats = torch.zeros(..); g = feats`) is the same matrix
+    g_names = _aliases(cfg, g_name) if g_name is not None else set()
+    vdef = _feature_defs(cfg, u, g_names, fn.params)
     if rets and vdef:
         ra = dotted(rets[0].ast.value)
-        ok = isinstance(vdef[0].ast.value, ast.Call) and g_name is not None and f"{g_name}[{ra}]" in ast.unparse(vdef[0].ast.value) and cfg.dominates(vdef[0], u)
+        ok = isinstance(vdef[0].ast.value, ast.Call) and any(f"{a}[{ra}]" in ast.unparse(vdef[0].ast.value) for a in g_names) and cfg.dominates(vdef[0], u)
         # ... and it is the same *value*: no re-binding of that name between the feature lookup and the return
         same = {d.id for d in cfg.defs_reaching(vdef[0], ra)} == {d.id for d in cfg.defs_reaching(rets[0], ra)} if ra else False
         ok = ok and same
@@ -125,19 +127,11 @@ def _get_action(ck: Check, repo: Repo, fn: Fn, cname: str) -> Optional[str]:
     # ---- C19.4 features and bonus
     src = ast.unparse(fn.node)
     ck.ob("C19.4", fn, fn.node, has(src, 'torch.zeros((self.action_dim, self.numel))'), f"{cname}: one feature row per arm, numel columns", construct=f"{cname}: feature matrix shape")
-    # mu is the local that holds the actor's output self.actor(...); k is the index variable of the loop over enumerate(mu)
-    mu_name = _local_bound_to(cfg, lambda e: isinstance(e, ast.Call) and call_name(e) == "self.actor")
-    loops = [n for n in cfg.live_nodes() if n.kind == "for" and mu_name is not None and f"enumerate({mu_name})" in ast.unparse(n.ast.iter)]
+    # roles: the loop runs over enumerate(<the actor's output self.actor(...)>, directly or through a temporary); k is its index variable, fx its element
+    loops = [n for n in cfg.live_nodes() if n.kind == "for" and _enumerates_actor_output(cfg, n)]
     ok = len(loops) == 1
     if ok:
-        body = ast.unparse(ast.Module(body=loops[0].ast.body, type_ignores=[]))
-        tgt = loops[0].ast.target
-        k_name = tgt.elts[0].id if isinstance(tgt, ast.Tuple) and tgt.elts and isinstance(tgt.elts[0], ast.Name) else None
-        ok = "self.optimizer.zero_grad()" in body and ".backward(retain_graph=True)" in body and any(_trainable_params_clause(x) for s in loops[0].ast.body for x in ast.walk(s)) \
-            and g_name is not None and k_name is not None and f"{g_name}[{k_name}] =" in body
-        zi = body.find("zero_grad()")
-        bi = body.find(".backward(")
-        ok = ok and 0 <= zi < bi
+        ok = _per_arm_gradient_rows(cfg, fn, loops[0], g_names)
     ck.ob("C19.4", fn, loops[0].ast if loops else fn.node, ok, f"{cname}: arm k's row is the gradient of output k w.r.t. the output layer's trainable parameters, gradients zeroed before each backward",
           construct=f"{cname}: per-arm gradient loop")
     # the rows stay the gradient features: between the loop that fills g and the rank-one update nothing rescales or overwrites g
@@ -149,24 +143,24 @@ def _get_action(ck: Check, repo: Repo, fn: Fn, cname: str) -> Optional[str]:
             if n.kind != "stmt":
                 continue
             a = n.ast
-            if isinstance(a, ast.AugAssign) and _root_name(a.target) == g_name:
+            if isinstance(a, ast.AugAssign) and _root_name(a.target) in g_names:
                 extra.append(a)
             elif isinstance(a, ast.Assign):
                 for t in a.targets:
-                    if isinstance(t, ast.Name) and t.id == g_name:
+                    if isinstance(t, ast.Name) and t.id in g_names:
                         v = a.value
                         while isinstance(v, ast.Call) and isinstance(v.func, ast.Attribute) and v.func.attr in moves:
                             v = v.func.value
                         zero = isinstance(v, ast.Call) and call_name(v) == "torch.zeros"
-                        if not (zero or (isinstance(v, ast.Name) and v.id == g_name)):
+                        if not (zero or (isinstance(v, ast.Name) and v.id in g_names)):
                             extra.append(a)
-                    elif isinstance(t, ast.Subscript) and _root_name(t) == g_name:
+                    elif isinstance(t, ast.Subscript) and _root_name(t) in g_names:
                         in_loop = bool(loops) and any(a is s or any(a is y for y in ast.walk(s)) for s in loops[0].ast.body)
                         if not in_loop:
                             extra.append(a)
             for c in (x for x in ast.walk(a) if isinstance(x, ast.Call)):
                 f = c.func
-                if isinstance(f, ast.Attribute) and f.attr.endswith("_") and not f.attr.startswith("_") and _root_name(f.value) == g_name:
+                if isinstance(f, ast.Attribute) and f.attr.endswith("_") and not f.attr.startswith("_") and _root_name(f.value) in g_names:
                     extra.append(c)
         ck.ob("C19.1", fn, extra[0] if extra else fn.node, not extra,
               f"{cname}: the feature rows reach the update as the loop wrote them (nothing rescales or overwrites the feature matrix in between)",
@@ -234,6 +228,26 @@ def _root_name(e: ast.AST) -> Optional[str]:
     return e.id if isinstance(e, ast.Name) else None
 
 
+def _aliases(cfg: CFG, name: str) -> Set[str]:
+    """name and the locals that only ever hold the same object: every binding of such a local is a plain `x = <name or alias>`
+    (stores into its elements and augmented assignments act on the object the local holds already and do not count as bindings)."""
+    binds: Dict[str, List[Optional[ast.AST]]] = {}
+    for n in cfg.live_nodes():
+        for key, strong in cfg.defs_at(n):
+            if strong and n.kind != "entry" and "." not in key and not (n.kind == "stmt" and isinstance(n.ast, ast.AugAssign)):
+                plain = n.kind == "stmt" and isinstance(n.ast, ast.Assign) and len(n.ast.targets) == 1 and isinstance(n.ast.targets[0], ast.Name)
+                binds.setdefault(key, []).append(n.ast.value if plain else None)
+    out = {name}
+    grown = True
+    while grown:
+        grown = False
+        for x, vals in binds.items():
+            if x not in out and all(isinstance(v, ast.Name) and v.id in out for v in vals):
+                out.add(x)
+                grown = True
+    return out
+
+
 def _local_bound_to(cfg: CFG, pred) -> Optional[str]:
     """The local variable whose (single kind of) definition `name = <value>` has a value accepted by pred; None when there is
     none or when two different locals qualify."""
@@ -242,7 +256,7 @@ def _local_bound_to(cfg: CFG, pred) -> Optional[str]:
     return next(iter(names)) if len(names) == 1 else None
 
 
-def _feature_defs(cfg: CFG, u: Node, g_name: Optional[str], params: List[str]) -> List[Node]:
+def _feature_defs(cfg: CFG, u: Node, g_names: Set[str], params: List[str]) -> List[Node]:
     """The definitions `v = <expression over g>` the update statement u reads (directly or through temporaries): v is found by
     following the locals read by u back to the first definitions whose value mentions the feature matrix g."""
     out: List[Node] = []
@@ -250,26 +264,19 @@ def _feature_defs(cfg: CFG, u: Node, g_name: Optional[str], params: List[str]) -
     work = [(u, x.id) for x in ast.walk(u.ast.value) if isinstance(x, ast.Name)]
     while work:
         at, name = work.pop()
-        if (at.id, name) in seen or name in params or name == g_name:
+        if (at.id, name) in seen or name in params or name in g_names:
             continue
         seen.add((at.id, name))
         for d in cfg.defs_reaching(at, name):
             if d.kind != "stmt" or not isinstance(d.ast, ast.Assign) or dotted(d.ast.targets[0]) != name:
                 continue
-            if any(isinstance(x, ast.Name) and x.id == g_name for x in ast.walk(d.ast.value)):
+            if any(isinstance(x, ast.Name) and x.id in g_names for x in ast.walk(d.ast.value)):
                 if d not in out:
                     out.append(d)
             else:
                 work += [(d, x.id) for x in ast.walk(d.ast.value) if isinstance(x, ast.Name)]
     out.sort(key=lambda n: n.id)
     return out
-
-
-def _trainable_params_clause(x: ast.AST) -> bool:
-    """comprehension clause `for w in self.exp_layer.parameters() if w.requires_grad` (w: any variable)."""
-    return isinstance(x, ast.comprehension) and isinstance(x.target, ast.Name) and ast.unparse(x.iter) == "self.exp_layer.parameters()" \
-        and len(x.ifs) == 1 and isinstance(x.ifs[0], ast.Attribute) and x.ifs[0].attr == "requires_grad" \
-        and isinstance(x.ifs[0].value, ast.Name) and x.ifs[0].value.id == x.target.id
 
 
 def _requires_grad_filter(gen: ast.comprehension) -> bool:
@@ -317,10 +324,81 @@ def _counts_trainable(cfg: CFG, at: Node, value: ast.AST, params_call: str) -> b
     if not (isinstance(elt, ast.Call) and isinstance(elt.func, ast.Attribute) and elt.func.attr == "numel" and not elt.args and not elt.keywords
             and isinstance(elt.func.value, ast.Name) and elt.func.value.id == gen.target.id):
         return False
-    if gen.ifs and not _requires_grad_filter(gen):
+    return _runs_over_trainable(cfg, at, gen, params_call)
+
+
+def _runs_over_trainable(cfg: CFG, at: Node, gen: ast.comprehension, params_call: str) -> bool:
+    """The comprehension clause visits exactly the requires_grad elements of params_call(): the filter sits in the clause itself
+    (`for w in X.parameters() if w.requires_grad`) or in a temporary list the clause runs over (`ps = [w for w in X.parameters() if w.requires_grad]`)."""
+    if not isinstance(gen.target, ast.Name) or (gen.ifs and not _requires_grad_filter(gen)):
         return False
     root, filtered = _element_source(cfg, at, gen.iter)
     return (filtered or bool(gen.ifs)) and isinstance(root, ast.Call) and dotted(root.func) == params_call and not root.args and not root.keywords
+
+
+def _enumerates_actor_output(cfg: CFG, loop: Node) -> bool:
+    """for <k>, <fx> in enumerate(<the actor's output>): the enumerated value is self.actor(...) itself or a local bound to it."""
+    it = loop.ast.iter
+    if not (isinstance(it, ast.Call) and isinstance(it.func, ast.Name) and it.func.id == "enumerate" and len(it.args) == 1 and not it.keywords):
+        return False
+    _, out = _local_value(cfg, loop, it.args[0])
+    return isinstance(out, ast.Call) and call_name(out) == "self.actor"
+
+
+def _feeding(cfg: CFG, at: Node, e: ast.AST, depth: int = 0) -> List[Tuple[Node, ast.AST]]:
+    """e and the values of the single-definition locals it reads (transitively), each with the node it is evaluated at."""
+    out = [(at, e)]
+    if depth < 4:
+        for x in ast.walk(e):
+            if isinstance(x, ast.Name) and isinstance(x.ctx, ast.Load):
+                defs = cfg.defs_reaching(at, x.id)
+                v = cfg.value_of_def(defs[0], x.id) if len(defs) == 1 else None
+                if v is not None:
+                    out += _feeding(cfg, defs[0], v, depth + 1)
+    return out
+
+
+def _per_arm_gradient_rows(cfg: CFG, fn: Fn, loop: Node, g_names: Set[str]) -> bool:
+    """In every iteration of `for k, fx in enumerate(<actor output>)`: the optimizer's gradients are zeroed, then output fx is back-propagated
+    (keeping the graph for the next arm), then row k of the feature matrix is assembled from a traversal of the requires_grad parameters of
+    self.exp_layer (the traversal may run over a list that was filtered before the loop); nothing zeroes the gradients again before they are read,
+    and get_action does not re-point exp_layer."""
+    tgt = loop.ast.target
+    if not g_names or not (isinstance(tgt, ast.Tuple) and len(tgt.elts) == 2 and all(isinstance(e, ast.Name) for e in tgt.elts)):
+        return False
+    k_name, fx_name = tgt.elts[0].id, tgt.elts[1].id
+    out_name = loop.ast.iter.args[0].id if isinstance(loop.ast.iter.args[0], ast.Name) else None
+    inside = [x for s in loop.ast.body for x in ast.walk(s)]
+    if any(isinstance(x, (ast.Assign, ast.AugAssign, ast.AnnAssign, ast.Delete)) and
+           any(dotted(t) == "self.exp_layer" for t in (x.targets if isinstance(x, (ast.Assign, ast.Delete)) else [x.target])) for x in ast.walk(fn.node)):
+        return False
+
+    def is_output_k(at: Node, e: ast.AST) -> bool:
+        _, e = _local_value(cfg, at, e)
+        if isinstance(e, ast.Name):
+            return e.id == fx_name and cfg.defs_reaching(at, fx_name) == [loop]
+        return isinstance(e, ast.Subscript) and isinstance(e.value, ast.Name) and e.value.id == out_name and out_name is not None \
+            and isinstance(e.slice, ast.Name) and e.slice.id == k_name and cfg.defs_reaching(at, k_name) == [loop]
+
+    def nodes(xs: List[ast.AST]) -> List[Node]:
+        return [n for n in (cfg.node_of(x) for x in xs) if n is not None]
+
+    zeros = nodes([c for c in inside if isinstance(c, ast.Call) and call_name(c) == "self.optimizer.zero_grad"])
+    backs = [n for c in inside if isinstance(c, ast.Call) and isinstance(c.func, ast.Attribute) and c.func.attr == "backward"
+             and const_value(get_kw(c, "retain_graph")) is True for n in nodes([c]) if is_output_k(n, c.func.value)]
+    rows = [n for n in nodes([x for x in inside if isinstance(x, ast.Assign)]) if len(n.ast.targets) == 1 and isinstance(n.ast.targets[0], ast.Subscript)
+            and isinstance(n.ast.targets[0].value, ast.Name) and n.ast.targets[0].value.id in g_names
+            and isinstance(n.ast.targets[0].slice, ast.Name) and n.ast.targets[0].slice.id == k_name and cfg.defs_reaching(n, k_name) == [loop]]
+    for r in rows:
+        if not any(_runs_over_trainable(cfg, at, c.generators[0], "self.exp_layer.parameters") for at, e in _feeding(cfg, r, r.ast.value)
+                   for c in ast.walk(e) if isinstance(c, (ast.ListComp, ast.GeneratorExp)) and len(c.generators) == 1):
+            continue
+        for b in backs:
+            if b is r or not cfg.dominates(b, r) or any(z is not b and z is not r and cfg.dominates(b, z) and cfg.dominates(z, r) for z in zeros):
+                continue
+            if any(z is not b and cfg.dominates(z, b) for z in zeros):
+                return True
+    return False
 
 
 def _s(k: str) -> str:
@@ -396,6 +474,15 @@ def _mutation(ck: Check, repo: Repo) -> None:
 _UCB = "agilerl/algorithms/neural_ucb_bandit.py"
 _TS = "agilerl/algorithms/neural_ts_bandit.py"
 _MF = "agilerl/hpo/mutation.py"
+_TS_LOOP = ("        mu = self.actor(obs)\n        g = torch.zeros((self.action_dim, self.numel)).to(self.device)\n        for k, fx in enumerate(mu):\n"
+            "            self.optimizer.zero_grad()\n            fx.backward(retain_graph=True)\n            g[k] = torch.cat(\n                [\n"
+            "                    w.grad.detach().flatten() / np.sqrt(self.exp_layer.weight.size(0))\n                    for w in self.exp_layer.parameters()\n"
+            "                    if w.requires_grad\n                ]\n            )\n")
+_TS_HEAD = ("    def get_action(\n        self, obs: ObservationType, action_mask: Optional[ArrayLike] = None\n    ) -> int:\n"
+            '        """Returns the next action to take in the environment.\n\n        :param obs: State observation, or multiple observations in a batch\n'
+            "        :type obs: numpy.ndarray[float]\n        :param action_mask: Mask of legal actions 1=legal 0=illegal, defaults to None\n"
+            "        :type action_mask: numpy.ndarray, optional\n        :return: Action to take in the environment\n        :rtype: int\n"
+            '        """\n        obs = self.preprocess_observation(obs)\n\n')
 VARIANTS = [
     ("ucb-returned-arm-rechosen-after-update", _UCB, "        return action\n\n    def learn(self, experiences", "        if action_mask is not None:\n            action = np.argmax(np.ma.array(action_values, mask=1 - action_mask))\n        return action\n\n    def learn(self, experiences", "fire", "C19.1"),
     ("ucb-plus", _UCB, "        self.sigma_inv -= (self.sigma_inv @ v @ v.T @ self.sigma_inv) / (", "        self.sigma_inv += (self.sigma_inv @ v @ v.T @ self.sigma_inv) / (", "fire", "C19.1"),
@@ -442,4 +529,42 @@ VARIANTS = [
      "                    (g[:, None, :] @ self.sigma_inv @ g[:, :, None])[:, 0, :]\n", "silent", None),
     ("ucb-rewrite-assign-ok", _UCB, "        self.sigma_inv -= (self.sigma_inv @ v @ v.T @ self.sigma_inv) / (\n            1 + v.T @ self.sigma_inv @ v\n        )",
      "        self.sigma_inv = self.sigma_inv - (self.sigma_inv @ v @ v.T @ self.sigma_inv) / (\n            1 + v.T @ self.sigma_inv @ v\n        )", "silent", None),
+    # round 4 (benign refactorings): the per-arm gradient loop is checked by roles, def-use and dominance (C19.4)
+    ("ts-trainable-params-and-scale-hoisted-ok", _TS, _TS_LOOP,
+     "        mu = self.actor(obs)\n        scale = np.sqrt(self.exp_layer.weight.size(0))\n        params = [w for w in self.exp_layer.parameters() if w.requires_grad]\n"
+     "        g = torch.zeros((self.action_dim, self.numel)).to(self.device)\n        for k, fx in enumerate(mu):\n            self.optimizer.zero_grad()\n"
+     "            fx.backward(retain_graph=True)\n            g[k] = torch.cat([w.grad.detach().flatten() / scale for w in params])\n", "silent", None),
+    ("ts-gradient-loop-in-private-helper-ok", _TS, _TS_HEAD + _TS_LOOP,
+     "    def _arm_gradient_features(self, arm_values):\n        scale = np.sqrt(self.exp_layer.weight.size(0))\n"
+     "        params = [w for w in self.exp_layer.parameters() if w.requires_grad]\n        features = torch.zeros((self.action_dim, self.numel)).to(self.device)\n"
+     "        for arm, value in enumerate(arm_values):\n            self.optimizer.zero_grad()\n            value.backward(retain_graph=True)\n"
+     "            features[arm] = torch.cat([w.grad.detach().flatten() / scale for w in params])\n        return features\n\n"
+     + _TS_HEAD + "        g = self._arm_gradient_features(self.actor(obs))\n", "silent", None),
+    ("ts-rows-built-through-temporary-no-actor-local-ok", _TS, _TS_LOOP,
+     "        g = torch.zeros((self.action_dim, self.numel)).to(self.device)\n        for k, fx in enumerate(self.actor(obs)):\n            self.optimizer.zero_grad()\n"
+     "            fx.backward(retain_graph=True)\n            grads = [w.grad.detach().flatten() / np.sqrt(self.exp_layer.weight.size(0)) for w in self.exp_layer.parameters() if w.requires_grad]\n"
+     "            g[k] = torch.cat(grads)\n", "silent", None),
+    ("ts-hoisted-params-unfiltered", _TS, _TS_LOOP,
+     "        mu = self.actor(obs)\n        params = list(self.exp_layer.parameters())\n"
+     "        g = torch.zeros((self.action_dim, self.numel)).to(self.device)\n        for k, fx in enumerate(mu):\n            self.optimizer.zero_grad()\n"
+     "            fx.backward(retain_graph=True)\n            g[k] = torch.cat([w.grad.detach().flatten() / np.sqrt(self.exp_layer.weight.size(0)) for w in params])\n", "fire", "C19.4"),
+    ("ts-hoisted-params-of-whole-actor", _TS, _TS_LOOP,
+     "        mu = self.actor(obs)\n        params = [w for w in self.actor.parameters() if w.requires_grad]\n"
+     "        g = torch.zeros((self.action_dim, self.numel)).to(self.device)\n        for k, fx in enumerate(mu):\n            self.optimizer.zero_grad()\n"
+     "            fx.backward(retain_graph=True)\n            g[k] = torch.cat([w.grad.detach().flatten() / np.sqrt(self.exp_layer.weight.size(0)) for w in params])\n", "fire", "C19.4"),
+    ("ts-gradients-zeroed-again-before-read", _TS, "            fx.backward(retain_graph=True)\n", "            fx.backward(retain_graph=True)\n            self.optimizer.zero_grad()\n", "fire", "C19.4"),
+    ("ts-gradients-zeroed-only-at-end-of-iteration", _TS, _TS_LOOP,
+     "        mu = self.actor(obs)\n        params = [w for w in self.exp_layer.parameters() if w.requires_grad]\n"
+     "        g = torch.zeros((self.action_dim, self.numel)).to(self.device)\n        for k, fx in enumerate(mu):\n"
+     "            fx.backward(retain_graph=True)\n            g[k] = torch.cat([w.grad.detach().flatten() / np.sqrt(self.exp_layer.weight.size(0)) for w in params])\n"
+     "            self.optimizer.zero_grad()\n", "fire", "C19.4"),
+    ("ts-backward-of-first-output-for-every-arm", _TS, "            fx.backward(retain_graph=True)\n", "            mu[0].backward(retain_graph=True)\n", "fire", "C19.4"),
+    ("ts-feature-matrix-under-second-name-ok", _TS, _TS_LOOP,
+     "        mu = self.actor(obs)\n        feats = torch.zeros((self.action_dim, self.numel)).to(self.device)\n        for k, fx in enumerate(mu):\n            self.optimizer.zero_grad()\n"
+     "            fx.backward(retain_graph=True)\n            feats[k] = torch.cat([w.grad.detach().flatten() / np.sqrt(self.exp_layer.weight.size(0)) for w in self.exp_layer.parameters() if w.requires_grad])\n"
+     "        g = feats\n", "silent", None),
+    ("ts-feature-matrix-scaled-through-second-name", _TS, _TS_LOOP,
+     "        mu = self.actor(obs)\n        feats = torch.zeros((self.action_dim, self.numel)).to(self.device)\n        for k, fx in enumerate(mu):\n            self.optimizer.zero_grad()\n"
+     "            fx.backward(retain_graph=True)\n            feats[k] = torch.cat([w.grad.detach().flatten() / np.sqrt(self.exp_layer.weight.size(0)) for w in self.exp_layer.parameters() if w.requires_grad])\n"
+     "        g = feats\n        g *= self.gamma\n", "fire", "C19.1"),
 ]
